@@ -138,6 +138,15 @@ func (p *Parser) parseGeneric(sb align.SeqBag) (err error) {
 		}
 	}
 
+	if sb.NbSequences() == 0 {
+		if curname != "" {
+			err = errors.New("A Fasta entry has a name but no sequence (" + curname + ")")
+		} else {
+			err = errors.New("no sequence in the fasta file")
+		}
+		return
+	}
+
 	if p.alphabet == align.BOTH {
 		sb.AutoAlphabet()
 	} else {
